@@ -322,6 +322,36 @@ theorem C06_custom_is_body (a : Attrs) (k : List (String × Obj)) (t : String)
   have hnot : ¬ t ∈ EmdGen.dataGroupTypes := by simpa using this
   simp [isDataKid, hasDataTag, Obj.gtype, Obj.attrs, hg, hnot]
 
+theorem isCustomTagged_attrGroup (i : NodeInfo) : isCustomTagged (customAttrGroup i) = true := by
+  simp only [customAttrGroup, nodeGroup, nodeAttrs, retagCustom, alookup, if_true, areplace, isCustomTagged]
+  simp [String.toList_append]
+
+/-- C06, node-valued attributes of a Custom object come back under their attribute names: of the body `Custom.to_h5` writes
+    (`customBody`), the reader hook's dictionary (`_get_emd_attr_data`) has exactly the attribute names as keys, in attribute
+    order — every attribute, whatever its class and whether its name looks private or not, and nothing else -/
+theorem C06_custom_attrs_returned (own : List (String × Obj)) (attrs : List NodeInfo)
+    (hown : own.all (fun kv => !isCustomTagged kv.2) = true) :
+    attrDataKeys (customBody own attrs) = attrs.map (·.name) := by
+  simp only [attrDataKeys, customBody, List.filter_append, List.map_append]
+  have h1 : own.filter (fun kv => isCustomTagged kv.2) = [] := by
+    rw [List.filter_eq_nil_iff]
+    intro kv hkv
+    have := (List.all_eq_true.mp hown) kv hkv
+    simpa using this
+  have h2 : ∀ (l : List NodeInfo), ((l.map (fun i => (i.name, customAttrGroup i))).filter (fun kv => isCustomTagged kv.2)).map (·.1)
+      = l.map (·.name) := by
+    intro l
+    induction l with
+    | nil => rfl
+    | cons i is ih =>
+      simp only [List.map_cons, List.filter_cons, isCustomTagged_attrGroup, if_true, List.map_cons, ih]
+  rw [h1, h2]
+  rfl
+
+example : attrDataKeys (customBody [("metadatabundle", .group bundleAttrs [])]
+    [⟨"first", "Image", "array", []⟩, ⟨"_hidden", "Node", "node", []⟩]) = ["first", "_hidden"] := by
+  rw [C06_custom_attrs_returned _ _ (by decide)]; rfl
+
 -- non-vacuity: a concrete registry with a hooked chain 5 deep (found) and 6 deep (not found), an un-hooked module, a 1-hook
 def chain : Nat → PyMember
   | 0 => .mod .yes [("Deep", .cls 42 true)]
